@@ -1,9 +1,10 @@
 (* C07 — Polyline.nearest is the true closest point; sub-path selection builds on it.
-   Only statements here; each is closed by `exact <lemma>` from proofs/P_segment.v, P_polyline_nearest.v. *)
+   Only statements here; each is closed by `exact <lemma>` from proofs/P_segment.v, P_polyline_nearest*.v. *)
 From Coq Require Import ZArith Reals List Bool.
 From PW Require Import Num NumR Vec NpList Result.
 From PW.model Require Import M_polyline_base M_segment M_polyline_nearest M_polyline_nearest_spec.
-From PW.proofs Require Import P_segment P_polyline_nearest P_polyline_nearest2 P_polyline_nearest3 P_polyline_nearest4.
+From PW.proofs Require Import P_segment P_polyline_nearest P_polyline_nearest2 P_polyline_nearest3 P_polyline_nearest4
+  P_polyline_nearest5 P_polyline_nearest6.
 Import ListNotations.
 Local Open Scope R_scope.
 
@@ -91,23 +92,44 @@ Theorem C07_sliced_at_points_open_spec : forall pl a b ra rb, pclosed pl = false
      Ok (MkPolyline (n_pt ra :: firstn (n_idx rb - n_idx ra) (skipn (S (n_idx ra)) (pv pl)) ++ [n_pt rb]) false)) /\
   (before_on rb ra -> sliced_at_points ROps pl a b = Raise ValueError).
 Proof. exact sliced_at_points_open_spec. Qed.
-(* closed polylines: forward as above; if nearest(b) is on the closing edge the path runs to the end of the vertex
-   list; if b comes first the path WRAPS: vertices to the end of the list, then from the start up to b's segment.
-   PARTIAL: proved when nearest(a) is not on the closing edge (S (n_idx ra) < number of vertices); on the closing
-   edge the code inserts at position 0 and all indices shift — covered by correspondence + oracle only. *)
-Theorem C07_sliced_at_points_closed_spec_partial : forall pl a b ra rb, pclosed pl = true ->
+(* closed polylines, every case (nearest(a) on the closing edge included: the code then inserts it at position 0 and
+   all indices shift). The result is the cyclic sub-path: nearest(a), then the vertices from the successor of a's
+   segment (edge_end = e[k][1], 0 for the closing edge) cyclically up to the start vertex of b's segment, then
+   nearest(b). That is n_idx rb - n_idx ra vertices when nearest(a) comes first, and otherwise the path WRAPS:
+   (number of vertices) + n_idx rb - n_idx ra vertices (all of them when b is earlier on a's own segment). *)
+Theorem C07_sliced_at_points_closed_spec : forall pl a b ra rb, pclosed pl = true ->
   nearest_one ROps pl a = Ok ra -> nearest_one ROps pl b = Ok rb ->
   index_of_vertex ROps (pv pl) (n_pt ra) = None -> index_of_vertex ROps (pv pl) (n_pt rb) = None ->
   near_vertex ROps (n_pt rb) (n_pt ra) = false ->
   (forall j s, j <> n_idx rb -> nth_error (pl_segments pl) j = Some s -> n_d rb < h_d (seg_hit_of ROps b s)) ->
-  (S (n_idx ra) < length (pv pl))%nat ->
-  (before_on ra rb -> (S (n_idx rb) < length (pv pl))%nat -> sliced_at_points ROps pl a b =
-     Ok (MkPolyline (n_pt ra :: firstn (n_idx rb - n_idx ra) (skipn (S (n_idx ra)) (pv pl)) ++ [n_pt rb]) false)) /\
-  (before_on ra rb -> S (n_idx rb) = length (pv pl) -> sliced_at_points ROps pl a b =
-     Ok (MkPolyline (n_pt ra :: skipn (S (n_idx ra)) (pv pl) ++ [n_pt rb]) false)) /\
+  (before_on ra rb -> sliced_at_points ROps pl a b =
+     Ok (MkPolyline (n_pt ra :: cyclic_from (pv pl) (edge_end pl (n_idx ra)) (n_idx rb - n_idx ra) ++ [n_pt rb]) false)) /\
   (before_on rb ra -> sliced_at_points ROps pl a b =
-     Ok (MkPolyline (n_pt ra :: skipn (S (n_idx ra)) (pv pl) ++ firstn (S (n_idx rb)) (pv pl) ++ [n_pt rb]) false)).
-Proof. exact sliced_at_points_closed_spec. Qed.
+     Ok (MkPolyline (n_pt ra :: cyclic_from (pv pl) (edge_end pl (n_idx ra)) (length (pv pl) + n_idx rb - n_idx ra)
+                       ++ [n_pt rb]) false)).
+Proof. exact sliced_at_points_closed_cyclic. Qed.
+(* the same with every case spelled out in firstn/skipn. nearest(a) on an ordinary edge: forward; forward with nearest(b)
+   on the closing edge (to the end of the vertex list); wrap (to the end of the list, then from the start up to b's
+   segment). nearest(a) on the closing edge: up to b's segment from vertex 0; just the two points; the whole way round. *)
+Theorem C07_sliced_at_points_closed_explicit : forall pl a b ra rb, pclosed pl = true ->
+  nearest_one ROps pl a = Ok ra -> nearest_one ROps pl b = Ok rb ->
+  index_of_vertex ROps (pv pl) (n_pt ra) = None -> index_of_vertex ROps (pv pl) (n_pt rb) = None ->
+  near_vertex ROps (n_pt rb) (n_pt ra) = false ->
+  (forall j s, j <> n_idx rb -> nth_error (pl_segments pl) j = Some s -> n_d rb < h_d (seg_hit_of ROps b s)) ->
+  ((S (n_idx ra) < length (pv pl))%nat ->
+    (before_on ra rb -> (S (n_idx rb) < length (pv pl))%nat -> sliced_at_points ROps pl a b =
+       Ok (MkPolyline (n_pt ra :: firstn (n_idx rb - n_idx ra) (skipn (S (n_idx ra)) (pv pl)) ++ [n_pt rb]) false)) /\
+    (before_on ra rb -> S (n_idx rb) = length (pv pl) -> sliced_at_points ROps pl a b =
+       Ok (MkPolyline (n_pt ra :: skipn (S (n_idx ra)) (pv pl) ++ [n_pt rb]) false)) /\
+    (before_on rb ra -> sliced_at_points ROps pl a b =
+       Ok (MkPolyline (n_pt ra :: skipn (S (n_idx ra)) (pv pl) ++ firstn (S (n_idx rb)) (pv pl) ++ [n_pt rb]) false))) /\
+  (S (n_idx ra) = length (pv pl) ->
+    ((n_idx rb < n_idx ra)%nat -> sliced_at_points ROps pl a b =
+       Ok (MkPolyline (n_pt ra :: firstn (S (n_idx rb)) (pv pl) ++ [n_pt rb]) false)) /\
+    (n_idx rb = n_idx ra -> n_t ra < n_t rb -> sliced_at_points ROps pl a b = Ok (MkPolyline [n_pt ra; n_pt rb] false)) /\
+    (n_idx rb = n_idx ra -> n_t rb < n_t ra -> sliced_at_points ROps pl a b =
+       Ok (MkPolyline (n_pt ra :: pv pl ++ [n_pt rb]) false))).
+Proof. exact sliced_at_points_closed_explicit. Qed.
 (* the invariance behind both: a query whose unique nearest point lies on another segment keeps point, distance and
    t when a point of segment k becomes a vertex; only the segment index is renumbered *)
 Theorem C07_nearest_invariant_under_vertex_insertion : forall pl k a b x tx,
@@ -121,11 +143,8 @@ Proof. exact nearest_transfer. Qed.
 
 (* the orientation decision. Open: flip exactly when the point nearest p2 comes before the point nearest p1
    in (segment index, t) order. Closed: flip exactly when the sub-path from p2 to p1 is shorter than the one
-   from p1 to p2. The result is the polyline itself or its end-to-end reversal.
-   PARTIAL: that (segment index, t) order is arc-length order needs positive segment lengths, not proved; that
-   after the flip the sub-path from p1 to p2 IS the shorter one needs slicing on the reversed polyline to be the
-   reversal of slicing on the original (different tie-breaking and indices), not proved — oracle-checked. *)
-Theorem C07_aligned_along_subsegment_spec_partial :
+   from p1 to p2. The result is the polyline itself or its end-to-end reversal. *)
+Theorem C07_aligned_along_subsegment_decision :
   (forall pl p1 p2 r1 r2, pclosed pl = false ->
      nearest_one ROps pl p1 = Ok r1 -> nearest_one ROps pl p2 = Ok r2 ->
      exists f, aligned_flip ROps pl p1 p2 = Ok f /\
@@ -137,6 +156,64 @@ Theorem C07_aligned_along_subsegment_spec_partial :
      exists f, aligned_flip ROps pl p1 p2 = Ok f /\
        r = (if f then MkPolyline (rev (pv pl)) (pclosed pl) else pl)).
 Proof. exact aligned_spec. Qed.
+
+(* what reversal does. The segments of the reversed polyline are the segments in reverse order with their ends
+   exchanged (on a closed polyline the closing edge stays last): segment k becomes segment rev_seg_index pl k. *)
+Theorem C07_reversed_segments : forall pl k, (k < length (pl_segments pl))%nat ->
+  nth_error (pl_segments (flipped pl)) (rev_seg_index pl k) = option_map swap_seg (nth_error (pl_segments pl) k) /\
+  (rev_seg_index pl k < length (pl_segments pl))%nat /\ rev_seg_index pl (rev_seg_index pl k) = k /\
+  length (pl_segments (flipped pl)) = length (pl_segments pl).
+Proof. exact (fun pl k H => conj (flipped_segment_nth pl k H) (conj (rev_seg_index_lt pl k H)
+         (conj (rev_seg_index_invol pl k H) (flipped_segments_count pl)))). Qed.
+(* On a polyline that does not touch itself near q (unique_nearest: every other segment is strictly farther, the reading
+   of C07_sliced_at_points_open_spec; ties are excluded, so first-index tie-breaking plays no role) and whose nearest
+   point is not a vertex, nearest on the reversed polyline reports the same point and distance, the mirrored segment
+   index and parameter 1 - t (flipped_near); uniqueness and not-a-vertex carry over. *)
+Theorem C07_nearest_on_reversed : forall pl q r, nearest_one ROps pl q = Ok r -> unique_nearest pl q r ->
+  index_of_vertex ROps (pv pl) (n_pt r) = None ->
+  nearest_one ROps (flipped pl) q = Ok (flipped_near pl r) /\ unique_nearest (flipped pl) q (flipped_near pl r) /\
+  index_of_vertex ROps (pv (flipped pl)) (n_pt (flipped_near pl r)) = None.
+Proof. exact nearest_on_flipped. Qed.
+(* slicing commutes with reversal up to list reversal (closed polylines): the sub-path from nearest(a) to nearest(b) on
+   the reversed polyline is the reversed sub-path from nearest(b) to nearest(a) on the polyline. *)
+Theorem C07_sliced_commutes_with_reversal : forall pl a b ra rb, pclosed pl = true ->
+  nearest_one ROps pl a = Ok ra -> nearest_one ROps pl b = Ok rb ->
+  index_of_vertex ROps (pv pl) (n_pt ra) = None -> index_of_vertex ROps (pv pl) (n_pt rb) = None ->
+  near_vertex ROps (n_pt rb) (n_pt ra) = false -> unique_nearest pl a ra -> unique_nearest pl b rb ->
+  exists C, sliced_at_points ROps pl b a = Ok (MkPolyline (n_pt rb :: C ++ [n_pt ra]) false) /\
+            sliced_at_points ROps (flipped pl) a b = Ok (MkPolyline (n_pt ra :: rev C ++ [n_pt rb]) false).
+Proof. exact sliced_flipped_is_reversed. Qed.
+
+(* THE POST-CONDITION, open polylines. Same conditions as in C07_sliced_at_points_open_spec, the self-avoidance reading
+   (unique nearest point) now for both query points because the search is repeated on the reversed polyline. The
+   call answers with the polyline itself (nearest(p1) first) or its reversal (nearest(p2) first); on the result
+   nearest still finds the same two points, nearest(p1) now comes before nearest(p2), and sliced_at_points on the
+   result does not refuse: it returns the sub-path from nearest(p1) to nearest(p2). *)
+Theorem C07_aligned_along_subsegment_open_spec : forall pl p1 p2 r1 r2, pclosed pl = false ->
+  nearest_one ROps pl p1 = Ok r1 -> nearest_one ROps pl p2 = Ok r2 ->
+  index_of_vertex ROps (pv pl) (n_pt r1) = None -> index_of_vertex ROps (pv pl) (n_pt r2) = None ->
+  near_vertex ROps (n_pt r2) (n_pt r1) = false -> unique_nearest pl p1 r1 -> unique_nearest pl p2 r2 ->
+  exists res r1' r2',
+    aligned_along_subsegment ROps pl p1 p2 = Ok res /\
+    (before_on r1 r2 -> res = pl) /\ (before_on r2 r1 -> res = flipped pl) /\
+    nearest_one ROps res p1 = Ok r1' /\ nearest_one ROps res p2 = Ok r2' /\
+    n_pt r1' = n_pt r1 /\ n_pt r2' = n_pt r2 /\ before_on r1' r2' /\
+    sliced_at_points ROps res p1 p2 =
+      Ok (MkPolyline (n_pt r1 :: firstn (n_idx r2' - n_idx r1') (skipn (S (n_idx r1')) (pv res)) ++ [n_pt r2]) false).
+Proof. exact aligned_open_runs_forward. Qed.
+(* THE POST-CONDITION, closed polylines: the call answers with the polyline or its reversal, and on the result the
+   sub-path from nearest(p1) to nearest(p2) (it starts and ends at these two points) is the shorter way round: not
+   longer than the complementary sub-path from nearest(p2) to nearest(p1). *)
+Theorem C07_aligned_along_subsegment_closed_spec : forall pl p1 p2 r1 r2, pclosed pl = true ->
+  nearest_one ROps pl p1 = Ok r1 -> nearest_one ROps pl p2 = Ok r2 ->
+  index_of_vertex ROps (pv pl) (n_pt r1) = None -> index_of_vertex ROps (pv pl) (n_pt r2) = None ->
+  near_vertex ROps (n_pt r2) (n_pt r1) = false -> unique_nearest pl p1 r1 -> unique_nearest pl p2 r2 ->
+  exists res fwd back mid,
+    aligned_along_subsegment ROps pl p1 p2 = Ok res /\ (res = pl \/ res = flipped pl) /\
+    sliced_at_points ROps res p1 p2 = Ok fwd /\ sliced_at_points ROps res p2 p1 = Ok back /\
+    pv fwd = n_pt r1 :: mid ++ [n_pt r2] /\
+    total_length ROps fwd <= total_length ROps back.
+Proof. exact aligned_closed_shorter_way. Qed.
 
 (* on a closed polyline with at least one vertex sliced_at_points always answers (no refusal: it can wrap) *)
 Theorem C07_sliced_at_points_closed_total : forall pl a b, pclosed pl = true -> pv pl <> [] ->
@@ -172,16 +249,40 @@ Example C07_sliced_closed_spec_inhabited : exists pl a b ra rb,
   (forall j s, j <> n_idx rb -> nth_error (pl_segments pl) j = Some s -> n_d rb < h_d (seg_hit_of ROps b s)) /\
   (S (n_idx ra) < length (pv pl))%nat /\ before_on ra rb /\ (S (n_idx rb) < length (pv pl))%nat.
 Proof. exact sliced_closed_spec_inhabited. Qed.
+(* nearest(a) and nearest(b) both on the closing edge of a closed square *)
+Example C07_sliced_closed_closing_edge_inhabited : exists pl a b ra rb,
+  pclosed pl = true /\ nearest_one ROps pl a = Ok ra /\ nearest_one ROps pl b = Ok rb /\
+  index_of_vertex ROps (pv pl) (n_pt ra) = None /\ index_of_vertex ROps (pv pl) (n_pt rb) = None /\
+  near_vertex ROps (n_pt rb) (n_pt ra) = false /\
+  (forall j s, j <> n_idx rb -> nth_error (pl_segments pl) j = Some s -> n_d rb < h_d (seg_hit_of ROps b s)) /\
+  S (n_idx ra) = length (pv pl) /\ before_on ra rb.
+Proof. exact sliced_closed_closing_inhabited. Qed.
 Example C07_aligned_open_inhabited : exists pl p1 p2 r1 r2,
   pclosed pl = false /\ nearest_one ROps pl p1 = Ok r1 /\ nearest_one ROps pl p2 = Ok r2.
 Proof. exact aligned_open_inhabited. Qed.
 Example C07_aligned_closed_inhabited : exists pl p1 p2 f, pclosed pl = true /\ aligned_flip ROps pl p1 p2 = Ok f.
 Proof. exact aligned_closed_inhabited. Qed.
+(* the post-condition theorems (and C07_nearest_on_reversed): an open L-shaped polyline where nearest(p2) comes first
+   (the flip happens), and the closed triangle (also meets the hypotheses of C07_sliced_commutes_with_reversal) *)
+Example C07_aligned_open_spec_inhabited : exists pl p1 p2 r1 r2,
+  pclosed pl = false /\ nearest_one ROps pl p1 = Ok r1 /\ nearest_one ROps pl p2 = Ok r2 /\
+  index_of_vertex ROps (pv pl) (n_pt r1) = None /\ index_of_vertex ROps (pv pl) (n_pt r2) = None /\
+  near_vertex ROps (n_pt r2) (n_pt r1) = false /\
+  unique_nearest pl p1 r1 /\ unique_nearest pl p2 r2 /\ before_on r2 r1.
+Proof. exact aligned_open_post_inhabited. Qed.
+Example C07_aligned_closed_spec_inhabited : exists pl p1 p2 r1 r2,
+  pclosed pl = true /\ nearest_one ROps pl p1 = Ok r1 /\ nearest_one ROps pl p2 = Ok r2 /\
+  index_of_vertex ROps (pv pl) (n_pt r1) = None /\ index_of_vertex ROps (pv pl) (n_pt r2) = None /\
+  near_vertex ROps (n_pt r2) (n_pt r1) = false /\
+  unique_nearest pl p1 r1 /\ unique_nearest pl p2 r2.
+Proof. exact aligned_closed_post_inhabited. Qed.
 
 Definition C07_all := (C07_sliced_at_points_closed_total, C07_closest_point_on_segment, C07_closest_point_optimal, C07_on_segment_iff_within_eps,
   C07_on_segment_uses_closest_point, C07_pairwise_is_rowwise, C07_nearest_total, C07_nearest_stacked_is_rowwise,
   C07_nearest_is_min_over_segments, C07_nearest_outputs_consistent, C07_nearest_ties_lowest_index,
   C07_nearest_returns_requested_refuted, C07_nearest_returns_requested_partial,
-  C07_sliced_at_points_open_spec, C07_nearest_invariant_under_vertex_insertion, C07_sliced_at_points_closed_spec_partial,
-  C07_aligned_along_subsegment_spec_partial).
+  C07_sliced_at_points_open_spec, C07_nearest_invariant_under_vertex_insertion, C07_sliced_at_points_closed_spec,
+  C07_sliced_at_points_closed_explicit, C07_aligned_along_subsegment_decision, C07_reversed_segments,
+  C07_nearest_on_reversed, C07_sliced_commutes_with_reversal, C07_aligned_along_subsegment_open_spec,
+  C07_aligned_along_subsegment_closed_spec).
 Print Assumptions C07_all.
